@@ -15,10 +15,11 @@ import (
 
 // Proc is one driver process.
 type Proc struct {
-	cmd *exec.Cmd
-	in  *bufio.Writer
-	out *bufio.Reader
-	dir string
+	cmd    *exec.Cmd
+	errBuf *tailBuf
+	in     *bufio.Writer
+	out    *bufio.Reader
+	dir    string
 }
 
 // Start launches bin/drv_<name>.test in a private scratch directory (removed by Close).
@@ -37,12 +38,13 @@ func Start(name string) *Proc {
 	stdin, _ := cmd.StdinPipe()
 	pr, pw, _ := os.Pipe()
 	cmd.ExtraFiles = []*os.File{pw}
-	cmd.Stdout, cmd.Stderr = nil, nil
+	eb := &tailBuf{}
+	cmd.Stdout, cmd.Stderr = nil, eb
 	if err := cmd.Start(); err != nil {
 		vf.Harness("cannot start driver %s: %v (run ./vcheck setup?)", bin, err)
 	}
 	pw.Close()
-	return &Proc{cmd: cmd, in: bufio.NewWriter(stdin), out: bufio.NewReaderSize(pr, 1<<16), dir: dir}
+	return &Proc{errBuf: eb, cmd: cmd, in: bufio.NewWriter(stdin), out: bufio.NewReaderSize(pr, 1<<16), dir: dir}
 }
 
 func scratchBase() string {
@@ -68,7 +70,7 @@ func (p *Proc) Call(op string, frames ...[]byte) ([][]byte, error) {
 	}
 	var n uint32
 	if err := binary.Read(p.out, binary.BigEndian, &n); err != nil {
-		return nil, fmt.Errorf("driver died: %w", err)
+		return nil, fmt.Errorf("driver died: %w; stderr tail:\n%s", err, p.errBuf.String())
 	}
 	resp := make([][]byte, n)
 	for i := range resp {
@@ -90,3 +92,14 @@ func (p *Proc) Close() {
 	_, _ = p.cmd.Process.Wait()
 	_ = os.RemoveAll(p.dir)
 }
+
+// tailBuf keeps the first 8 KiB written (a fatal error message of the driver).
+type tailBuf struct{ b []byte }
+
+func (t *tailBuf) Write(p []byte) (int, error) {
+	if len(t.b) < 8192 {
+		t.b = append(t.b, p...)
+	}
+	return len(p), nil
+}
+func (t *tailBuf) String() string { return string(t.b) }
